@@ -4,13 +4,19 @@ from .xsbase import *
 SETUP = ['|12 34 56| var bs', '[ 1 2 3 ] var vec { 1 "a" } var mp', ': inc 1 + ; 5 var n', '|ff 0f| open-bitstr 4 bits var part',
          'late later : usesit later ;', '"text" var s 0 var cnt',
          # uniquely owned slices that do not start at bit 0 (read out of a computed buffer whose input is then closed)
-         '[ 1 2 3 ] >bitstr open-bitstr 8 bits drop 8 bits close-bitstr var sl', '[ 255 15 ] >bitstr open-bitstr 4 bits drop 8 bits close-bitstr var sl', '|a5 5a c3| var bs bs 4 bits drop', '[ |ff| |00| ] var bvec', '1 2 3']
+         '[ 1 2 3 ] >bitstr open-bitstr 8 bits drop 8 bits close-bitstr var sl', '[ 255 15 ] >bitstr open-bitstr 4 bits drop 8 bits close-bitstr var sl', '|a5 5a c3| var bs bs 4 bits drop', '[ |ff| |00| ] var bvec', '1 2 3',
+         # values that already carry tags when the copy is taken (the tag wrapper is shared between the copies)
+         '5 "byte" "kind" insert-tag var tg', '|2a| open-bitstr u8 var tg close-bitstr', '42 ^hex var tg', '[ 1 2 ] ^{ 1 "a" ^} var tg tg',
+         '"s" 1 "n" insert-tag dup var tg']
 MUTATE = ['bs |ff| bitstr-append ! bs', 'bs bitstr-not ! bs', 'bs |0| swap bitstr-append', '7 vec push ! vec', 'mp 2 "b" insert ! mp', 'mp "a" remove ! mp',
           ': inc 2 + ;', 'n inc ! n', ': later 42 ; usesit', 'part |x.x| bitstr-append ! part', 'part bitstr-not', 'u8 drop', '8 seek', 'close-bitstr',
           'bs |ff| bitstr-and', 'bs |f| bitstr-or print', 'bs |0| bitstr-xor println', '|ff 00| |f| bitstr-and print',
           'sl |cc| swap bitstr-append open-bitstr offset remain close-bitstr', 'sl bitstr-not open-bitstr offset close-bitstr', 'sl |1| bitstr-append ! sl sl',
           'sl open-bitstr offset 4 bits close-bitstr',
           's " more" [ ] swap push swap push reverse concat ! s', 'cnt 1 + ! cnt', 'drop', '99', '1 var fresh', 'vec reverse ! vec', 'bs 8 bits',
+          'tg "x" "k2" insert-tag 42 equal?', 'tg "kind" remove-tag ! tg tg tags', 'tg { "q" 1 } with-tags dup tags swap 1 +', 'tg ^bin 1 +',
+          'tg "v" "kind" insert-tag ! tg tg tags', 'tg 1 "k" insert-tag 2 "j" insert-tag dup tags swap 42 ==', 'tg tags', 'tg ^{ 1 "z" ^} case 42 of 1 endof 5 of 2 endof 0 endcase',
+          'dup 3 "w" insert-tag tags', 'tg fmt/upcase dup 0 + swap tags',
           '3 0 do cnt I + ! cnt loop', 'bvec 0 nth |1| swap bitstr-append', 'depth', '"x" print', 'bs length', '1 0 /', 'nosuchword']
 
 
@@ -76,6 +82,16 @@ class C03(XsProp):
                      'dup |f| bitstr-or print print']
         for pre in stack_slices:
             for c1 in consumers:
+                ev = 'eval %s | stack | out' % hexsrc(c1)
+                cs.append('xs limits 4002 - - | eval %s | clone | %s | use 1 | %s' % (hexsrc(pre), ev, ev))
+        # the same with a tagged value that only the data stack holds: re-tagging it must not depend on who else holds the old wrapper
+        stack_tagged = ['5 "byte" "kind" insert-tag', '|2a| open-bitstr u8 close-bitstr', '42 ^hex', '[ 1 2 ] ^{ 1 "a" ^}', '"s" 1 "n" insert-tag', '7 ^{ 1 "a" 2 "b" ^}',
+                        '1.5 3 "k" insert-tag']
+        retaggers = ['"x" "k2" insert-tag dup tags swap 5 equal?', '"kind" remove-tag dup 42 equal? swap tags', '{ 1 "q" } with-tags dup 42 == swap tags',
+                     '^bin dup 1 + swap tags', '1 "k" insert-tag 2 "j" insert-tag dup tags swap dup', 'fmt/upcase 5 swap case 5 of 1 endof 42 of 2 endof 0 endcase',
+                     '^{ 1 "z" ^} dup length', 'dup 3 "w" insert-tag swap 4 "v" insert-tag equal?', '9 "kind" insert-tag [ ] swap push 0 get 5 equal?']
+        for pre in stack_tagged:
+            for c1 in retaggers:
                 ev = 'eval %s | stack | out' % hexsrc(c1)
                 cs.append('xs limits 4002 - - | eval %s | clone | %s | use 1 | %s' % (hexsrc(pre), ev, ev))
         # captured output belongs to the copy that printed it
